@@ -9,7 +9,7 @@ Iv = lambda i: dict(k='inv', id=i)
 BODIES = {'bridge': {'h1': [Ca(1)], 'h2': [Ca(1), No, Ca(2)], 'h3': [Ca(2), Iv(3), Ca(1)]},
           'bridge2': {'h1': [Ca(1), Ca(2)], 'h2': [Ca(2), Ca(1)]},
           'bridge3': {'h1': [No, Iv(1)], 'h2': [Iv(2)], 'h3': [No], 'h4': [Iv(0), No, Iv(3)], 'h5': [No, No, Ca(1)]}}
-OUTS = ['ok', 'ok', 'ok', 'err:7', 'err:-32602', 'err:plain']
+OUTS = ['ok', 'ok', 'ok', 'err:7', 'err:-32602', 'err:plain', 'err:baddata']
 
 def convert(beh, rng, name, bodies):
     steps, cid, nxt = [], {}, 1
